@@ -1402,26 +1402,31 @@ class Container:
         if solute not in self.contents:
             raise ValueError(f"Container does not contain {solute.name}.")
 
-        new_ratio, numerator, denominator = Unit.calculate_concentration_ratio(solute, concentration, solvent)
-
-        if numerator == 'U':
-            if not solute.is_enzyme():
-                raise TypeError("Solute must be an enzyme.")
-
-        current_ratio = self.contents[solute] / sum(self.contents[substance] for
-                                                    substance in self.contents if not substance.is_enzyme())
-
-        if new_ratio <= 0:
+        target, numerator, denominator = Unit.parse_concentration(concentration)
+        if numerator == 'U' and not solute.is_enzyme():
+            raise TypeError("Solute must be an enzyme.")
+        if denominator == 'U' or solvent.is_enzyme():
+            raise ValueError("Invalid unit in denominator.")
+        if solvent == solute:
+            raise ValueError("Solute and solvent must be different.")
+        if target <= 0:
             raise ValueError("Solution is impossible to create.")
 
-        if abs(new_ratio - current_ratio) <= 1e-6:
+        def stored_unit(substance):
+            return 'U' if substance.is_enzyme() else config.moles_storage_unit
+
+        # amount of solute and size of the whole mixture, in the units of the requested concentration
+        solute_amount = Unit.convert_from(solute, self.contents[solute], stored_unit(solute), numerator)
+        total = sum(Unit.convert_from(substance, amount, stored_unit(substance), denominator)
+                    for substance, amount in self.contents.items())
+        # solute_amount / (total + moles of solvent added * per_mole) = target
+        per_mole = Unit.convert_from(solvent, 1, 'mol', denominator)
+        required_umoles = (solute_amount / target - total) / per_mole * 1e6
+        if round(Unit.convert_to_storage(required_umoles, 'umol'), config.internal_precision) < 0:
+            raise ValueError("Desired concentration is higher than current concentration.")
+        if round(Unit.convert_to_storage(required_umoles, 'umol'), config.internal_precision) == 0:
             return deepcopy(self)
 
-        if new_ratio > current_ratio:
-            raise ValueError("Desired concentration is higher than current concentration.")
-
-        current_umoles = Unit.convert_from_storage(self.contents.get(solvent, 0), 'umol')
-        required_umoles = Unit.convert_from_storage(self.contents[solute], 'umol') / new_ratio - current_umoles
         new_volume = self.volume + Unit.convert(solvent, f"{required_umoles} umol", config.volume_storage_unit)
 
         if new_volume > self.max_volume:
